@@ -11,6 +11,8 @@ func init() {
 		specs: func(tier string) []specRef {
 			s := []specRef{hsd(rootPkg, "VerifC26_receive", P{"messages": q(tier, int64(3), 4), "flow": 0}, 1, 5000000, 3400, "unsubscribed", "cancelled", "closed", "cutoff")}
 			s = append(s, hsd(rootPkg, "VerifC26_backpressure", P{"burst": 18}, 1, 5000000, 3400, "backpressure"))
+			// one Receive on two channels, the server drops one of them and keeps publishing on the other
+			s = append(s, hsd(rootPkg, "VerifC26_partial", nil, 1, 1000000, 900, "partial"))
 			if tier == "thorough" {
 				s = append(s, hsd(rootPkg, "VerifC26_receive", P{"messages": 3, "flow": 1}, 1, 5000000, 3400, "unsubscribed", "cancelled", "closed", "cutoff"))
 			}
